@@ -815,6 +815,10 @@ func grpcStatusFromError(err error) (*statusv1.Status, error) {
 		}
 		status.Details = details
 	}
+	// Error text often quotes peer-supplied bytes. A proto3 string cannot carry
+	// invalid UTF-8, and failing to marshal the status would replace the
+	// error's code with "internal" and drop its details and metadata.
+	status.Message = strings.ToValidUTF8(status.Message, "\uFFFD")
 	return status, nil
 }
 
